@@ -1,0 +1,18 @@
+//go:build verif
+
+package services
+
+// Contracts for govc (see /verif/DESIGN.md). Comment-only file: contributes no code.
+
+//@ func (s *DiscoveryService) GetHealthyEndpoints
+//@   property C03
+//@   refines ports.DiscoveryService.GetHealthyEndpoints
+//@   ensures err == nil ==> forall k int :: 0 <= k && k < len(res) ==> res[k] != nil && fresh(res[k]) && res[k].Status == "healthy"
+//@   ensures s.endpointRepo == nil ==> err != nil
+
+//@ func (s *DiscoveryService) UpdateEndpointStatus
+//@   property C03
+//@   requires endpoint != nil
+//@   modifies gvar updCount, gvar updStatus, gvar updLastChecked, gvar updNext, gvar updFailures, gvar updMult, gvar updURL, gvar updErr
+//@   ensures s.endpointRepo != nil ==> updCount == old(updCount) + 1 && updStatus == endpoint.Status && updNext == endpoint.NextCheckTime && updFailures == endpoint.ConsecutiveFailures && updMult == endpoint.BackoffMultiplier && updErr == err
+//@   ensures s.endpointRepo == nil ==> err != nil && updCount == old(updCount)
